@@ -51,3 +51,19 @@ def _():
     import ttconv.isd as I
     d = _imsc(TT % ("", '<body><div><p><span tts:ruby="bogus">hello</span></p></div></body>'))
     if _texts(I.ISD.from_model(d, 0)) != ["hello"]: return 'a span with tts:ruby="bogus" is dropped together with its text'
+
+
+@witness("C04", "style-invalid-value-abort")
+def _():
+    try:
+        _imsc(TT % ("", '<head><styling><style xml:id="s1" tts:extent="1em 1em"/></styling></head><body><div><p style="s1">a</p></div></body>'))
+    except ValueError as e:
+        return 'a referenced <style tts:extent="1em 1em"/> aborts the read with ValueError (inline, the same attribute is logged and ignored)'
+
+
+@witness("C04", "textshadow-comma-space")
+def _():
+    import ttconv.style_properties as s
+    d = _imsc(TT % ("", '<body><div><p><span tts:textShadow="1px 1px, 2px 2px">x</span></p></div></body>'))
+    sp = list(list(list(d.get_body())[0])[0])[0]
+    if sp.get_style(s.StyleProperties.TextShadow) is None: return 'tts:textShadow="1px 1px, 2px 2px" (white space after the comma) is rejected'
